@@ -156,9 +156,8 @@ func (unpacker *RtpUnpackerAac) TryUnpackOne(list *RtpPacketList) (unpackedFlag 
 	for i := range aus {
 		var outPkt base.AvPacket
 		outPkt.PayloadType = unpacker.payloadType
-		outPkt.Timestamp = rtpTimestamp2Ms(p.Packet.Header.Timestamp, unpacker.clockRate)
-		// TODO chef: 这里1024的含义
-		outPkt.Timestamp += int64(uint32(i * (1024 * 1000) / unpacker.clockRate))
+		// 一个rtp包中的多个AU，每个AU间隔1024个采样点。注意，先在rtp时间戳上累加再转换成毫秒，避免每个AU都引入取整误差
+		outPkt.Timestamp = rtpTimestamp2Ms(p.Packet.Header.Timestamp+uint32(i*1024), unpacker.clockRate)
 		outPkt.Payload = b[aus[i].pos : aus[i].pos+aus[i].size]
 		unpacker.onAvPacket(outPkt)
 	}
